@@ -13,7 +13,7 @@ PUT_SITES = ["posix.putobject.bodywritten", "posix.objversion.copied", "posix.ob
              "posix.link.published", "posix.putobject.linked", "posix.putobject.done"]
 CMU_SITES = ["posix.objversion.copied", "posix.objversion.stored", "posix.cmu.beforelink", "posix.link.enter", "posix.link.named", "posix.link.beforerename", "posix.link.published", "posix.cmu.linked", "posix.cmu.beforecleanup"]
 PART_SITES = ["posix.link.enter", "posix.link.named", "posix.link.beforerename", "posix.link.published"]
-DEL_SITES = ["posix.deleteobject.beforeremove", "posix.deleteobject.removed", "posix.objversion.copied", "posix.objversion.stored"]
+DEL_SITES = ["posix.deleteobject.beforeremove", "posix.deleteobject.removed", "posix.objversion.copied", "posix.objversion.stored", "posix.deleteobject.marker.between"]
 # model step index of the site within its operation (Model/Crash.v): the number of steps completed when the process dies
 STEP_OF = {"posix.putobject.bodywritten": 1, "posix.objversion.copied": 1, "posix.objversion.stored": 2, "posix.putobject.beforelink": 2, "posix.cmu.beforelink": 2, "posix.link.enter": 2, "posix.link.named": 2,
            "posix.link.beforerename": 2, "posix.link.published": 3, "posix.putobject.linked": 3, "posix.putobject.done": 3, "posix.cmu.linked": 3, "posix.cmu.beforecleanup": 3,
@@ -51,8 +51,11 @@ def run(chk):
                     R.req("PUT", "/" + bk, query={"versioning": ""}, body=b"<VersioningConfiguration><Status>Enabled</Status></VersioningConfiguration>")
                 old, new = 2 * wid, 2 * wid + 1
                 existing = not opname.endswith("-new")
+                old_vid = None
                 if existing:
-                    chk.require(R.req("PUT", path, body=body_of(old), headers=write_headers(old)).status == 200, "c11:setup", "initial PUT failed")
+                    r0_ = R.req("PUT", path, body=body_of(old), headers=write_headers(old))
+                    chk.require(r0_.status == 200, "c11:setup", "initial PUT failed")
+                    old_vid = r0_.headers.get("x-amz-version-id")
                 uid = None
                 if opname.startswith("multipart") or opname.startswith("uploadpart"):
                     r0 = R.req("POST", path, query={"uploads": ""}, headers=write_headers(new)); uid = r0.xml().findtext("UploadId")
@@ -113,6 +116,13 @@ def run(chk):
                         if "null" in ids: problems.append("ListObjectVersions after the restart shows a null version although every write happened with versioning enabled: %r" % ids)
                         latest = [x.findtext("VersionId") for x in list(lv.xml().findall("Version")) + list(lv.xml().findall("DeleteMarker")) if x.findtext("IsLatest") == "true"] if lv.status == 200 and lv.xml() is not None else []
                         if ids and len(latest) != 1: problems.append("ListObjectVersions after the restart flags %d entries as latest" % len(latest))
+                    if versioned and existing and old_vid:
+                        # ---- (b0) the version the operation replaces (or hides behind a delete marker) is still there under its id
+                        gv0 = R.req("GET", path, query={"versionId": old_vid})
+                        listed0 = old_vid in [x.findtext("VersionId") for x in lv.xml().findall("Version")] if lv.status == 200 and lv.xml() is not None else False
+                        if gv0.status != 200 or gv0.body != body_of(old) or not listed0:
+                            problems.append("after the restart the version %s written before the %s (acknowledged) is %s: GET by its id answers %d %s, ListObjectVersions lists %r" % (
+                                old_vid, opname, "gone" if gv0.status != 200 else "altered" if gv0.body != body_of(old) else "not listed", gv0.status, gv0.code, ids))
                     if opname.startswith("multipart") and state != "new":
                         # the upload must still be completable
                         rc = R.req("POST", path, query={"uploadId": uid}, body=("<CompleteMultipartUpload><Part><PartNumber>1</PartNumber><ETag>%s</ETag></Part></CompleteMultipartUpload>" % petag).encode())
